@@ -49,7 +49,7 @@ PROPS['C04'] = dict(
 
 COND_LEMMAS = ['L_FA_len', 'L_FA_alive', 'L_FA_full', 'L_FA_keeps', 'L_FA_from', 'L_AliveMass_pos', 'L_SumP_ext', 'L_FA_sum', 'L_Renorm_len', 'L_Renorm_at', 'L_Renorm_sum', 'L_FL_from', 'L_FL_keeps']
 A_F0 = "prune_states is verified for ANY predicate F0 satisfying the inversion rule of 'reachable from state 0 in the entry graph'; that forward reachability satisfies it is M_LFP_inv (lean/Meta.lean)"
-TAD_CONE = [('tad', q.split('.', 1)[1]) for q in _C if q.startswith('tad.') and not _C[q].get('virtual')]
+TAD_CONE = sorted({('tad', q.split('.', 1)[1].split('@')[0]) for q in _C if q.startswith('tad.') and not _C[q].get('virtual') and not _C[q].get('external')})
 PROPS['C03'] = dict(
     functions=fns('C03'),
     lemmas=COND_LEMMAS,
@@ -61,7 +61,7 @@ PROPS['C03'] = dict(
     level_note="Trusted: z3/cvc5, the encoder (heap model of list objects and object fields), A-REAL. The composition inside StochasticGame.solve (that these methods are called in this order on the solver's node list) is covered by the bounded executable contracts, not yet by a contract on solve. Termination of prune_states not proved.",
 )
 PROPS['C10'] = dict(
-    functions=[q for q in _C if q.startswith('tad.')],
+    functions=[q for q in _C if q.startswith('tad.') and not _C[q].get('external')],
     lemmas=COND_LEMMAS,
     static=[('determinism-of-the-solver-cone', ST.determinism(TAD_CONE + [('reverse_dfs', f) for f in ('reverse_dfs', 'reverse_dfs_recursive', 'reverse_transition_list', 'reverse_transition_list_core', 'list_of_tuples_to_dict_of_lists', 'add_missing_states')]))],
     assumptions=COMMON + [A_VALID, "init_states makes each node's next_states alias the caller's transition_list[i] (heap model: the field holds the caller's list reference)"],
